@@ -42,7 +42,9 @@ ValidTree(t) ==
 
 (* ------------------------------------------------------------------ edits (the reachable working-tree states)
    An edit is a record [op, id, parent, name, kind]; EditSucc gives every enabled edit with the state it leads to.
-   Only ids that the basis never had can be added; rename targets are the entry's own name or the spare name "e". *)
+   Only ids that the basis never had can be added; rename targets are the entry's own name or the spare name "d2" -
+   chosen so that one name is a plain string prefix of a sibling's ("d" / "d2", "c/d" / "c/d2"): selecting or excluding the
+   directory must not touch the sibling. *)
 Ed(op, i, p, n, k) == [op |-> op, id |-> i, parent |-> p, name |-> n, kind |-> k]
 Flip(c) == IF c = "x" THEN "y" ELSE "x"
 Present(w, m) == DOMAIN w \ m
@@ -61,7 +63,7 @@ EditSucc(Ids, b, w, m) ==
         deletes == {St(Ed("delete", i, Dash, Dash, Dash), w, m \cup {i} \cup Desc(w, i)) : i \in Present(w, m)}
         renames == UNION {{St(Ed("rename", i, p, n, Dash), [w EXCEPT ![i].parent = p, ![i].name = n], m) :
                              p \in {q \in Dirs(w, m) \ ({i} \cup Desc(w, i)) : InvDirOk(b, w, q)},
-                             n \in {w[i].name, "e"}} : i \in Present(w, m)}
+                             n \in {w[i].name, "d2"}} : i \in Present(w, m)}
         modifies == {St(Ed("modify", i, Dash, Dash, Dash), [w EXCEPT ![i].content = Flip(@)], m) :
                         i \in {j \in Present(w, m) : w[j].kind \in {"file", "symlink"}}}
         chmods == {St(Ed("chmod", i, Dash, Dash, Dash), [w EXCEPT ![i].exec = ~@], m) :
